@@ -78,14 +78,20 @@ def op_histogram(progs):
 
 def run(tier, seed, t0, prop=PROP, n_quick=60, n_thorough=600, opts=None, gen=None, make_items=None,
         files=None, props_file="Props/C01.v", rule=None, extra_cov=None, pre=None, witness_extra=None,
-        reclassify=None):
+        reclassify=None, on_broken=None):
     """generic driver: build, replay witnesses, generate items, run the validator, classify, report.
     make_items(seed, n) -> list of engine.Item (default: random scalar programs)"""
     rep = Report(prop, tier, seed, t0)
     FILES_ = FILES + (files or [])
     ok, bad, out = build_or_report(rep, FILES_)
     if bad or not ok:
-        rep.violation({"broken": [list(b) for b in bad] or "coq build failed", "log": out[-3000:]}, False)
+        found = None
+        if on_broken is not None and bad:
+            found = on_broken(rep, bad)
+        payload = {"broken": [list(b) for b in bad] or "coq build failed", "log": out[-3000:]}
+        if found:
+            payload.update(found)
+        rep.violation(payload, bool(found))
         return rep.finish()
     rep.obligations += count_theorems(FILES_)
     rep.discharged += count_theorems(FILES_)
